@@ -171,7 +171,14 @@ def word_case(part, P, w, lname, rel, learn):
         part.violation('ambiguous classes=%s' % '+'.join(sorted(c.__name__ for c in claims)), 'word %#010x claimed by %s' % (w, [c.__name__ for c in claims]), wit)
         return
     if not claims:
-        part.skip('no class claims the word')
+        # the decode API must agree: no class -> no instruction (also after any history of other decodes)
+        try:
+            m = P.ppc_mn(w)
+        except Exception:
+            part.ok(w, outcome='unclaimed')
+            return
+        part.violation('step=decode kind=unclaimed-word-decoded class=%s' % type(m).__name__,
+                       'no class check() accepts %#010x but ppc_mn(word) returns a %s after earlier decodes' % (w, type(m).__name__), wit)
         return
     cname = claims[0].__name__
     try:
@@ -196,6 +203,18 @@ def word_case(part, P, w, lname, rel, learn):
         part.violation('class=%s step=str exc=%s' % (cname, type(ex).__name__), 'str(ppc_mn(%#010x)) raises %r' % (w, ex), wit, size=bin(w).count('1'))
         return
     base = txt.split(' ')[0]
+    # conditional branches: the condition named in the text must be the one BO/BI encode
+    prim = w >> 26
+    if prim == 16 or (prim == 19 and ((w >> 1) & 0x3ff) in (16, 528)):
+        bo, bi = (w >> 21) & 31, (w >> 16) & 31
+        toks = set(re.split(r'[\s,]+', txt))
+        named = toks & {'LT', 'GT', 'EQ', 'SO', 'GE', 'LE', 'NE', 'NS'}
+        if named and not (bo & 0x10):
+            exp = [['GE', 'LE', 'NE', 'NS'], ['LT', 'GT', 'EQ', 'SO']][(bo >> 3) & 1][bi & 3]
+            if named != {exp}:
+                part.violation('class=%s step=render field=condition' % cname,
+                               '%#010x (BO=%d BI=%d) renders %r; BO/BI encode condition %s' % (w, bo, bi, txt.strip(), exp), wit, size=bin(w).count('1'))
+                return
     try:
         a = P.ppc_mn.asm(txt)
         ok = isinstance(a, list) and len(a) >= 1 and a[0] == struct.pack('>L', w)
